@@ -1092,6 +1092,23 @@ def inline_new_constants(trees: dict[str, ast.Module], base: dict[str, Any]) -> 
 
 
 # ------------------------------------------------------------------ driver (N1-N3; N4 runs after indexing, see aliases.py)
+def drop_dead_statements(tree: ast.Module) -> int:
+    """N21: statements that follow a raise / return / break / continue in the same block can never run (the inliner
+    leaves such a tail behind when a helper ends in a raise); they are dropped."""
+    n = 0
+    for node in ast.walk(tree):
+        for field in ("body", "orelse", "finalbody"):
+            blk = getattr(node, field, None)
+            if not isinstance(blk, list) or not blk or not isinstance(blk[0], ast.stmt):
+                continue
+            for i, st in enumerate(blk):
+                if isinstance(st, (ast.Raise, ast.Return, ast.Break, ast.Continue)) and i + 1 < len(blk):
+                    n += len(blk) - i - 1
+                    del blk[i + 1 :]
+                    break
+    return n
+
+
 def normalize_trees(trees: dict[str, ast.Module]) -> dict[str, Any]:
     """Run the passes N1-N3, N5, N7, N8 in place.  Each pass is fail-safe: if it raises, the trees are restored to
     what they were before that pass and the failure is recorded (a bug of the normaliser must never take the
@@ -1138,6 +1155,11 @@ def normalize_trees(trees: dict[str, ast.Module]) -> dict[str, Any]:
         guarded("N1 renames", n1)
         guarded("N2 inlining", n2)
         guarded("N7 constants", n7)
+
+    def n21() -> None:
+        report["dead_statements"] = sum(drop_dead_statements(t) for t in trees.values())
+
+    guarded("N21 dead statements", n21)
 
     def n3() -> None:
         wl: list[str] = []
